@@ -1,10 +1,12 @@
 (* C20 driver: one history per line.
    h <maxv> <tf> <misc> <nx> <nodata> <deleg> <trunc> <nev> <event>*   (raw setter arguments; `d` x 7 = Config::default())
-   event := q <name> <class> <type> <flags rd|cd<<1|ad<<2|do<<3> <opcode> <now_ms> <delay_ms> <resp>
+   event := q <name> <qcase> <class> <type> <flags rd|cd<<1|ad<<2|do<<3> <opcode> <now_ms> <delay_ms> <resp>
+          | s <name> <qcase> <class> <type> <flags> <opcode> <now_ms>      (a request starts: lookup)
+          | f <name> <class> <type> <flags> <t_ms> <resp>                  (upstream's answer to a waiting request arrives)
           | x <n>
-   resp  := e <code> | m <id> <rcode> <flags aa|tc<<1|rd<<2|ad<<3|broken<<4> <q: - | type:class> <nan> <nns> <nar> <rec>*
+   resp  := e <code> | m <id> <rcode> <flags aa|tc<<1|rd<<2|ad<<3|broken<<4> <q: - | type:class> <qcase> <nan> <nns> <nar> <rec>*
    rec   := type:class:ttl:id:bad
-   Output: observations joined by " | ": F, FE<code>, X, S e<code>, S m <id> <rcode> <flags> [recs] [recs] [recs];
+   Output: observations joined by " | ": F, FE<code>, P, X, S e<code>, S m <id> <rcode> <flags> <qcase> [recs] [recs] [recs];
    `Panic` if the model panics anywhere in the history. *)
 let ni s = n_of_int (int_of_string s)
 let bit v i = (v lsr i) land 1 = 1
@@ -21,7 +23,7 @@ let rec take n l acc =
 let parse_resp l =
   match l with
   | "e" :: code :: rest -> (RErr (ni code), rest)
-  | "m" :: id :: rcode :: flags :: q :: nan :: nns :: nar :: rest ->
+  | "m" :: id :: rcode :: flags :: q :: qcase :: nan :: nns :: nar :: rest ->
       let f = int_of_string flags in
       let q = if q = "-" then None else
         (match String.split_on_char ':' q with
@@ -30,7 +32,7 @@ let parse_resp l =
       let (ns, rest) = take (int_of_string nns) rest [] in
       let (ar, rest) = take (int_of_string nar) rest [] in
       (RMsg { m_id = ni id; m_rcode = ni rcode; m_aa = bit f 0; m_tc = bit f 1; m_rd = bit f 2; m_ad = bit f 3;
-              m_q = q; m_an = List.map parse_rec an; m_ns = List.map parse_rec ns;
+              m_q = q; m_qcase = ni qcase; m_an = List.map parse_rec an; m_ns = List.map parse_rec ns;
               m_ar = List.map parse_rec ar; m_broken = bit f 4 }, rest)
   | _ -> failwith "bad response"
 
@@ -38,11 +40,20 @@ let rec parse_events n l acc =
   if n = 0 then (if l <> [] then failwith "trailing words" else List.rev acc)
   else match l with
   | "x" :: k :: rest -> parse_events (n - 1) rest (EEvict (nat_of_int (int_of_string k)) :: acc)
-  | "q" :: name :: cls :: ty :: flags :: opcode :: now :: delay :: rest ->
+  | "q" :: name :: qcase :: cls :: ty :: flags :: opcode :: now :: delay :: rest ->
       let f = int_of_string flags in
       let k = key_of_request (ni name) (ni cls) (ni ty) (bit f 0) (bit f 1) (bit f 2) (bit f 3) in
       let (u, rest) = parse_resp rest in
-      parse_events (n - 1) rest (EQuery (k, ni opcode, ni now, ni delay, u) :: acc)
+      parse_events (n - 1) rest (EQuery (k, ni opcode, ni qcase, ni now, ni delay, u) :: acc)
+  | "s" :: name :: qcase :: cls :: ty :: flags :: opcode :: now :: rest ->
+      let f = int_of_string flags in
+      let k = key_of_request (ni name) (ni cls) (ni ty) (bit f 0) (bit f 1) (bit f 2) (bit f 3) in
+      parse_events (n - 1) rest (EStart (k, ni opcode, ni qcase, ni now) :: acc)
+  | "f" :: name :: cls :: ty :: flags :: t :: rest ->
+      let f = int_of_string flags in
+      let k = key_of_request (ni name) (ni cls) (ni ty) (bit f 0) (bit f 1) (bit f 2) (bit f 3) in
+      let (u, rest) = parse_resp rest in
+      parse_events (n - 1) rest (EFinish (k, ni t, u) :: acc)
   | _ -> failwith "bad event"
 
 let show_rec r =
@@ -52,14 +63,15 @@ let b2i b = if b then 1 else 0
 let show_resp = function
   | RErr e -> "e" ^ string_of_int (int_of_n e)
   | RMsg m ->
-      Printf.sprintf "m %d %d %d %s %s %s" (int_of_n m.m_id) (int_of_n m.m_rcode)
-        (b2i m.m_aa lor (b2i m.m_tc lsl 1) lor (b2i m.m_rd lsl 2) lor (b2i m.m_ad lsl 3))
+      Printf.sprintf "m %d %d %d %d %s %s %s" (int_of_n m.m_id) (int_of_n m.m_rcode)
+        (b2i m.m_aa lor (b2i m.m_tc lsl 1) lor (b2i m.m_rd lsl 2) lor (b2i m.m_ad lsl 3)) (int_of_n m.m_qcase)
         (show_sec m.m_an) (show_sec m.m_ns) (show_sec m.m_ar)
 let show_obs = function
   | OServed r -> "S " ^ show_resp r
   | OForwarded -> "F"
   | OFwdErr e -> "FE" ^ string_of_int (int_of_n e)
   | OBypass -> "F"  (* not distinguishable from outside: both reach upstream *)
+  | OPending -> "P"
   | OEvicted -> "X"
 
 let handle = function
@@ -68,7 +80,10 @@ let handle = function
         else config_of (ni maxv) (ni tf) (ni misc) (ni nx) (ni nodata) (ni deleg) (trunc = "1") in
       let evs = parse_events (int_of_string nev) rest [] in
       (match c20_run cfg evs with
-       | Ok os -> String.concat " | " (List.map show_obs os)
+       | Ok os ->
+           (* a started request that is not cacheable also just goes upstream *)
+           let show ev o = match ev, o with EStart _, OBypass -> "P" | _ -> show_obs o in
+           String.concat " | " (List.map2 show evs os)
        | Err e -> "Err " ^ string_of_int (int_of_n e)
        | Panic _ -> "Panic"
        | OutOfFuel -> "OutOfFuel")
